@@ -25,6 +25,7 @@ CLASSES = {
     "Point": P.Point, "FPoint": P.FPoint, "Box": P.Box, "APoint": P.APoint,
     "AFrozen": P.AFrozen, "PModel": P.PModel, "NT": P.NT, "TNT": P.TNT,
     "Outer.Cfg": P.Outer.Cfg, "Opaque": P.Opaque, "Vec": P.Vec, "APriv": P.APriv, "PAlias": P.PAlias,
+    "Hidden": P.Hidden, "AHidden": P.AHidden, "PHidden": P.PHidden, "PExtra": P.PExtra, "IVar": P.IVar,
     "int": int, "str": str, "list": list, "dict": dict, "set": set, "float": float,
     "bytes": bytes, "tuple": tuple, "bool": bool, "frozenset": frozenset,
     "defaultdict": P.defaultdict,
@@ -34,13 +35,16 @@ CALL_FIELDS = {
     "Point": ["x", "y"], "FPoint": ["x", "y"], "Box": ["items", "name", "meta"],
     "APoint": ["a", "b", "c"], "AFrozen": ["k", "v"], "PModel": ["n", "tags", "opt"],
     "NT": ["a", "b"], "TNT": ["p", "q"], "Outer.Cfg": ["n"], "APriv": ["x", "y"], "PAlias": ["n", "other"],
+    "Hidden": ["a", "b"], "AHidden": ["a", "b"], "PHidden": ["a", "b"], "PExtra": ["a", "zz"],
 }
 REQUIRED = {
     "Point": ["x"], "FPoint": ["x"], "Box": [], "APoint": ["a"], "AFrozen": ["k"],
     "PModel": ["n"], "NT": ["a"], "TNT": ["p"], "Outer.Cfg": [], "APriv": ["x"], "PAlias": ["n"],
+    "Hidden": ["a"], "AHidden": ["a"], "PHidden": ["a"], "PExtra": ["a"],
 }
 HASHABLE_CALLS = ["FPoint", "AFrozen", "NT", "TNT"]
-UNHASHABLE_CALLS = ["Point", "Box", "APoint", "PModel", "Outer.Cfg", "APriv", "PAlias"]
+UNHASHABLE_CALLS = ["Point", "Box", "APoint", "PModel", "Outer.Cfg", "APriv", "PAlias", "Hidden", "AHidden", "PHidden",
+                    "PExtra"]
 
 
 def build(d):
